@@ -239,6 +239,7 @@ type gen struct {
 
 	noBlankTP bool // the method under construction mentions the receiver's type parameters
 
+	heavy       bool // the package may import the standard packages with large dependency graphs
 	testMode    bool // units are created for the _test.go file
 	hasTestMain bool
 
@@ -420,6 +421,8 @@ type Ty struct {
 	Generic  bool   // an instantiation of a generic type
 	Impls    []Impl // interfaces: declared types known to implement it
 	Test     bool   // declared in the _test.go file
+	open     bool   // its declaration is still being generated
+	Opaque   bool   // known by its source text only (Name holds a type literal or a qualified name)
 	unit     int
 }
 
@@ -684,6 +687,29 @@ func (t *Ty) cmp(d int) bool {
 		return t.Con != nil && t.Con.Comparable
 	}
 	return true
+}
+
+// hasIface reports whether an interface type occurs in t outside pointers,
+// channels, functions, maps and slices (types that contain one are comparable
+// but not strictly comparable).
+func (t *Ty) hasIface(d int) bool {
+	if d > 8 {
+		return true
+	}
+	u := t.u()
+	switch u.K {
+	case KIface:
+		return true
+	case KStruct:
+		for _, f := range u.Fields {
+			if f.T.hasIface(d + 1) {
+				return true
+			}
+		}
+	case KArray:
+		return u.Elem.hasIface(d + 1)
+	}
+	return false
 }
 
 func (t *Ty) ordered() bool {
